@@ -2310,10 +2310,12 @@ func (c *Conn) handleIncomingPacket(
 
 	r := &recordlayer.RecordLayer{}
 	if err := r.Unmarshal(prepared.buf); err != nil {
-		if prepared.header.Epoch == 0 {
+		if prepared.header.Epoch == 0 || prepared.header.ContentType == protocol.ContentTypeChangeCipherSpec {
 			// An unprotected record that does not decode (unknown content type, truncated
 			// alert, ...) may come from anybody: discard it silently instead of aborting
-			// the association [RFC6347 Section-4.1.2.7].
+			// the association [RFC6347 Section-4.1.2.7]. The same holds for a
+			// ChangeCipherSpec of any epoch, which the record protection hands through
+			// without authenticating it.
 			return packetOutcome{}, nil
 		}
 
